@@ -1,6 +1,6 @@
 (** C03 - Whatever is revoked, removed or replaced is withdrawn and stays on the CRL.
-    Only statements; proofs in ca/CaObjProofs.v. *)
-From KV Require Import base.Tac ca.Ca ca.CaProofs ca.CaObjProofs.
+    Only statements; proofs in ca/CaObjProofs.v and ca/CaOracleProofs.v. *)
+From KV Require Import base.Tac ca.Ca ca.CaProofs ca.CaObjProofs ca.CaCheck ca.CaOracleProofs.
 Open Scope N_scope.
 
 (** Every insert/remove in a key's object set records a revocation for the superseded object. *)
@@ -41,6 +41,29 @@ Proof. exact reissue_keeps_revocations. Qed.
 Theorem C03_covered_transitive : forall now a b c, covered now a b -> covered now b c -> covered now a c.
 Proof. exact covered_trans. Qed.
 
+(** The executable oracle evaluated on the implementation's object stores ([revoked_ok]: whatever was published
+    is still published under its name with the same serial, or its serial is on the revocation list of the
+    set with the same key, or it has expired; no revocation dropped before expiry) is what EVERY run of the
+    model satisfies - for every store with distinct object names per set, every command list whose new key
+    sets get fresh keys ([Fresh]) and that does not use the legacy 'unsuspended' list ([NoUnsusp]). *)
+Theorem C03_model_run_meets_oracle : forall env cn s o ms s' o',
+  names_wf o -> Fresh o ms -> NoUnsusp ms ->
+  run_cmds env cn s o ms = Some (s', o') -> revoked_ok (e_now env) o o' = true.
+Proof. exact model_run_meets_revoked_ok. Qed.
+
+(** ... hence an observed transition that agrees with the model satisfies it ([hyps_ok] is the boolean form of
+    the hypotheses above plus distinct class names in the observed post store). *)
+Theorem C03_agrees_meets_oracle : forall c, agrees c = true -> hyps_ok c = true -> c03_ok c = true.
+Proof. exact agrees_meets_c03_checked. Qed.
+
+(** The freshness hypothesis is needed: a key set re-created under a key that was used before loses the
+    revocations of that key (the model takes the key from the event without a freshness check). *)
+Theorem C03_model_run_meets_oracle_without_freshness_refuted : ~ model_run_meets_revoked_ok_full.
+Proof. exact model_run_meets_revoked_ok_full_refuted. Qed.
+
+Print Assumptions C03_model_run_meets_oracle.
+Print Assumptions C03_agrees_meets_oracle.
+Print Assumptions C03_model_run_meets_oracle_without_freshness_refuted.
 Print Assumptions C03_insert_revokes_replaced.
 Print Assumptions C03_remove_revokes.
 Print Assumptions C03_update_objects_revokes.
